@@ -382,3 +382,48 @@ Qed.
 (* the hypothesis on pairs is necessary: two code points that form a surrogate pair come back as one *)
 Lemma l_pair_collapses : loads_attrs (dumps_attrs [([107], [[55357; 56832]])]) = Some [([107], [[128512]])].
 Proof. vm_compute. reflexivity. Qed.
+
+(* ---------- ensure_ascii ---------- *)
+Definition ascii (l : list N) : Prop := Forall (fun c => c < 128) l.
+
+Lemma ascii_app a b : ascii a -> ascii b -> ascii (a ++ b).
+Proof. intros A B. apply Forall_app. split; assumption. Qed.
+
+Lemma jhexd_ascii d : d < 16 -> jhexd d < 128.
+Proof. intros H. unfold jhexd. destruct (d <? 10); lia. Qed.
+
+Lemma uesc_ascii n : n < 65536 -> ascii (uesc n).
+Proof.
+  intros H. unfold uesc, jhex4. repeat (apply Forall_cons; [try lia; apply jhexd_ascii; lia|]). apply Forall_nil.
+Qed.
+
+Lemma esc_char_ascii c : c < 1114112 -> ascii (esc_char c).
+Proof.
+  intros H. unfold esc_char.
+  repeat match goal with |- ascii (if ?b then _ else _) => destruct b eqn:? end;
+    try (repeat (apply Forall_cons; [lia|]); apply Forall_nil).
+  - apply uesc_ascii. lia.
+  - apply ascii_app; apply uesc_ascii; lia.
+Qed.
+
+Lemma qstr_ascii s : Forall cp s -> ascii (qstr s).
+Proof.
+  intros H. unfold qstr. apply Forall_cons; [lia|]. apply ascii_app; [|apply Forall_cons; [lia|apply Forall_nil]].
+  induction H as [|c s Hc Hs IH]; [apply Forall_nil|]. cbn [flat_map]. apply ascii_app; [apply esc_char_ascii; exact Hc|exact IH].
+Qed.
+
+Lemma jjoin_ascii l : Forall ascii l -> ascii (jjoin l).
+Proof.
+  induction l as [|x l IH]; intros H; [apply Forall_nil|]. inversion H as [|? ? Hx Hl]; subst. destruct l as [|y l]; [exact Hx|].
+  change (jjoin (x :: y :: l)) with (x ++ 44 :: jjoin (y :: l)). apply ascii_app; [exact Hx|]. apply Forall_cons; [lia|apply IH; exact Hl].
+Qed.
+
+(* the stored JSON text is pure ASCII (ensure_ascii), whatever the attribute content *)
+Theorem l_dumps_attrs_ascii a : Forall (fun kv => Forall cp (fst kv) /\ Forall (Forall cp) (snd kv)) a -> ascii (dumps_attrs a).
+Proof.
+  intros H. unfold dumps_attrs, dumps. apply Forall_cons; [lia|]. apply ascii_app; [|apply Forall_cons; [lia|apply Forall_nil]].
+  apply jjoin_ascii. unfold attrs_obj. rewrite map_map. apply Forall_map. apply (Forall_impl _ (P := fun kv => Forall cp (fst kv) /\ Forall (Forall cp) (snd kv))); [|exact H].
+  intros [k vs] [Hk Hv]. cbn [fst snd] in *. unfold dump_member. cbn [fst snd dump_val]. apply ascii_app; [apply qstr_ascii; exact Hk|].
+  apply Forall_cons; [lia|]. apply Forall_cons; [lia|]. apply ascii_app; [|apply Forall_cons; [lia|apply Forall_nil]].
+  apply jjoin_ascii. apply Forall_map. apply (Forall_impl _ (P := Forall cp)); [|exact Hv]. intros s Hs. apply qstr_ascii. exact Hs.
+Qed.
